@@ -76,6 +76,23 @@ impl HdrC {
         }
         b
     }
+    /// Decoding that never fails: if the buffer does not have the size its own segment lengths
+    /// announce (only code under test that corrupts the meta header can cause that), only the
+    /// meta header is decoded and the field lists are empty.
+    pub fn parse_or_meta(b: &[u8]) -> HdrC {
+        if let Some(h) = HdrC::parse(b) {
+            return h;
+        }
+        let meta = if b.len() >= 4 { u32::from_be_bytes([b[0], b[1], b[2], b[3]]) } else { 0 };
+        HdrC {
+            ci: (meta >> 30) as u8,
+            ch: ((meta >> 24) & 63) as u8,
+            rsv: ((meta >> 18) & 63) as u8,
+            sl: [((meta >> 12) & 63) as u8, ((meta >> 6) & 63) as u8, (meta & 63) as u8],
+            inf: vec![],
+            hop: vec![],
+        }
+    }
     /// Raw decoding of a buffer that holds exactly one standard path.
     pub fn parse(b: &[u8]) -> Option<HdrC> {
         if b.len() < 4 {
